@@ -27,7 +27,7 @@ ASSUMPTIONS = [
 ]
 COMPONENTS = {"real": ["pyxel observation / parameter modes / evaluator / load_table", "dask get_async", "xarray", "filesystem (scratch dir)"], "stub": ["thread pool"]}
 BUDGET = {"quick": {"n": 320, "wall": 100, "determinism": 4}, "thorough": {"n": 8000, "wall": 1500, "determinism": 12}}
-REQUIRED_REACH = ["mode:product", "mode:sequential", "mode:custom", "path:par", "path:seq", "vector_param", "disabled_param", "numpy_expr", "colliding_names", "custom_file:txt", "custom_file:npy"]
+REQUIRED_REACH = ["rerun_after_reconfiguration", "mode:product", "mode:sequential", "mode:custom", "path:par", "path:seq", "vector_param", "disabled_param", "numpy_expr", "colliding_names", "custom_file:txt", "custom_file:npy"]
 
 
 def _gen_custom(rng, scn):
@@ -89,6 +89,16 @@ def generate(rng, tier):
                 victim = en_params.pop(0)
                 scn["mode"]["parameters"].remove(victim)
     obs.ensure_fields_visible(scn)
+    # history: the same Observation / detector / pipeline objects are run a second time after the
+    # caller changed a configured value
+    scn["rerun"] = None
+    if scn["mode"]["obs_mode"] != "custom" and rng.random() < 0.4:
+        en = [(g, m) for g, m in world.all_models(scn) if m.get("enabled", True)]
+        g, m = rng.choice(en)
+        swept = {p["key"]: ref.param_values(p) for p in scn["mode"]["parameters"] if p.get("enabled", True)}
+        key = f"pipeline.{g}.{m['name']}.arguments.level"
+        new = rng.choice([v for v in [13, 21.5, 34] if v not in swept.get(key, [])])
+        scn["rerun"] = {"group": g, "model": m["name"], "arg": "level", "value": new}
     return scn
 
 
@@ -130,6 +140,49 @@ def _same(a, b):
     )
 
 
+def _judge(scn, rec, path, feat, viol):
+    """Executions and result entries of one observation run against the reference space."""
+    combos, _idx = obs.expected_space(scn)
+    runs = {}
+    for ev in rec["hist"]:
+        runs.setdefault(ev["run"], []).append(ev)
+    remaining = list(range(len(combos)))
+    extra_allowed = 1 if path == "par" else 0
+    bad_exec = None
+    for rid in sorted(runs):
+        ap = _applied(scn, runs[rid])
+        hit = next((i for i in remaining if all(_same(ap.get(k), v) for k, v in combos[i].items())), None)
+        if hit is not None:
+            remaining.remove(hit)
+        elif extra_allowed and any(all(_same(ap.get(k), v) for k, v in c.items()) for c in combos):
+            extra_allowed -= 1
+        else:
+            bad_exec = ap
+            break
+    if bad_exec is not None:
+        viol.append({"clause": "C05.space", "signature": f"C05.space-extra-run@{feat}", "detail": {"applied": expo.norm(bad_exec), "expected_space": expo.norm(combos)[:8]}})
+    elif remaining:
+        viol.append({"clause": "C05.space", "signature": f"C05.space-missing-run@{feat}", "detail": {"never_executed": expo.norm([combos[i] for i in remaining])[:6], "runs_executed": len(runs)}})
+    vals, problems = obs.per_run_values(scn, rec["tree"])
+    if problems:
+        kind = problems[0].split(":")[0]
+        viol.append({"clause": "C05.labels", "signature": f"C05.labels-{kind}@{feat}", "detail": problems[:4]})
+        return
+    for r, (combo, got) in enumerate(zip(combos, vals)):
+        pred = obs.predicted_run(scn, combo)
+        for b, want in pred.items():
+            if b == "charge" and not np.any(want):
+                continue
+            if b not in got:
+                viol.append({"clause": "C05.values", "signature": f"C05.values-missing-bucket@{feat}", "detail": {"run": r, "bucket": b}})
+                return
+            g = np.asarray(got[b], dtype=float)
+            w = np.asarray(want, dtype=float)
+            if g.shape != w.shape or not np.array_equal(g, w):
+                viol.append({"clause": "C05.values", "signature": f"C05.values-under-label@{feat}", "detail": {"run": r, "label": expo.norm(combo), "bucket": b, "got": g.ravel()[:3].tolist(), "want": w.ravel()[:3].tolist()}})
+                return
+
+
 def execute(scn, forced=None):
     viol, stats = [], {}
     mode = scn["mode"]
@@ -161,7 +214,7 @@ def execute(scn, forced=None):
             s["mode"]["from_file"] = fn
             if not pad:
                 s["mode"].pop("column_range", None)
-        rec = obs.run_observation(s, with_dask=(path == "par"), forced=forced)
+        rec = obs.run_observation(s, with_dask=(path == "par"), forced=forced, keep_objects=True)
     sim = rec.get("sim") or {}
     combos, _idx = obs.expected_space(scn)
     if rec["exc"] is not None:
@@ -174,48 +227,22 @@ def execute(scn, forced=None):
                 extra = "+two-vector-params-of-different-length"
             viol.append({"clause": "C05.runs", "signature": f"C05.runs@{feat}-raises:{type(exc).__name__}{extra}", "detail": {"exc": repr(exc)[:400], "tb": rec.get("tb", "")[-900:]}})
     else:
-        # (1) executions: multiset of applied tuples == reference space (+1 duplicate execution on the parallel path)
-        runs = {}
-        for ev in rec["hist"]:
-            runs.setdefault(ev["run"], []).append(ev)
-        remaining = list(range(len(combos)))
-        extra_allowed = 1 if path == "par" else 0
-        bad_exec = None
-        for rid in sorted(runs):
-            ap = _applied(scn, runs[rid])
-            hit = next((i for i in remaining if all(_same(ap.get(k), v) for k, v in combos[i].items())), None)
-            if hit is not None:
-                remaining.remove(hit)
-            elif extra_allowed and any(all(_same(ap.get(k), v) for k, v in c.items()) for c in combos):
-                extra_allowed -= 1
+        _judge(scn, rec, path, feat, viol)
+        if scn.get("rerun") and not viol and rec.get("objects"):
+            stats["rerun_after_reconfiguration"] = 1
+            rr = scn["rerun"]
+            mode_o, det_o, pipe_o = rec["objects"]
+            mf = next(m for m in getattr(pipe_o, rr["group"]).models if m.name == rr["model"])
+            mf.arguments[rr["arg"]] = rr["value"]
+            s2 = copy.deepcopy(scn)
+            for _, m in world.all_models(s2):
+                if m["name"] == rr["model"]:
+                    m["arguments"][rr["arg"]] = rr["value"]
+            rec2 = obs.run_observation(s2, with_dask=(path == "par"), objects=rec["objects"])
+            if rec2["exc"] is not None:
+                viol.append({"clause": "C05.runs", "signature": f"C05.rerun-raises@{feat}:{type(rec2['exc']).__name__}", "detail": repr(rec2["exc"])[:300]})
             else:
-                bad_exec = ap
-                break
-        if bad_exec is not None:
-            viol.append({"clause": "C05.space", "signature": f"C05.space-extra-run@{feat}", "detail": {"applied": expo.norm(bad_exec), "expected_space": expo.norm(combos)[:8]}})
-        elif remaining:
-            viol.append({"clause": "C05.space", "signature": f"C05.space-missing-run@{feat}", "detail": {"never_executed": expo.norm([combos[i] for i in remaining])[:6], "runs_executed": len(runs)}})
-        # (2) result entries: select by label, compare with the closed-form prediction
-        vals, problems = obs.per_run_values(scn, rec["tree"])
-        if problems:
-            kind = problems[0].split(":")[0]
-            viol.append({"clause": "C05.labels", "signature": f"C05.labels-{kind}@{feat}", "detail": problems[:4]})
-        else:
-            for r, (combo, got) in enumerate(zip(combos, vals)):
-                pred = obs.predicted_run(scn, combo)
-                for b, want in pred.items():
-                    if b == "charge" and not np.any(want):
-                        continue
-                    if b not in got:
-                        viol.append({"clause": "C05.values", "signature": f"C05.values-missing-bucket@{feat}", "detail": {"run": r, "bucket": b}})
-                        break
-                    g = np.asarray(got[b], dtype=float)
-                    w = np.asarray(want, dtype=float)
-                    if g.shape != w.shape or not np.array_equal(g, w):
-                        viol.append({"clause": "C05.values", "signature": f"C05.values-under-label@{feat}", "detail": {"run": r, "label": expo.norm(combo), "bucket": b, "got": g.ravel()[:3].tolist(), "want": w.ravel()[:3].tolist()}})
-                        break
-                if viol:
-                    break
+                _judge(s2, rec2, path, feat + "+second-run-after-reconfiguration", viol)
     seen, uniq = set(), []
     for v in viol:
         if v["signature"] not in seen:
